@@ -31,6 +31,7 @@ type xcase struct {
 	Legacy     bool   // single-stream SendManifest/RecvManifest
 	QUICVis    bool   // memnet with QUIC stream visibility
 	Window     int
+	Segment    int // max bytes per Read on the transport (0 = unlimited)
 	Perturb    []perturb
 	HashAlg    string
 }
@@ -46,8 +47,8 @@ var perturbSites = []string{"send.chunk.before", "send.fileend.before", "send.re
 	"recv.finalize.after", "recv.main.case.control", "recv.main.case.done", "sidecar.flush.begin"}
 
 func (x xcase) String() string {
-	return fmt.Sprintf("chunk=%d hash=%q streams=%d conns=%d resume(s=%v,r=%v) noroot=%v mode=%s legacy=%v quicvis=%v window=%d perturb=%v tree=%s",
-		x.Chunk, x.HashAlg, x.Streams, x.Conns, x.SendResume, x.RecvResume, x.NoRootDir, x.Mode, x.Legacy, x.QUICVis, x.Window, x.Perturb, x.Tree.Describe())
+	return fmt.Sprintf("chunk=%d hash=%q streams=%d conns=%d resume(s=%v,r=%v) noroot=%v mode=%s legacy=%v quicvis=%v window=%d segment=%d perturb=%v tree=%s",
+		x.Chunk, x.HashAlg, x.Streams, x.Conns, x.SendResume, x.RecvResume, x.NoRootDir, x.Mode, x.Legacy, x.QUICVis, x.Window, x.Segment, x.Perturb, x.Tree.Describe())
 }
 
 func (x xcase) fingerprint() string {
@@ -200,7 +201,7 @@ func (p *prepared) recvOpts() transfer.Options {
 func (p *prepared) newPair(optsFor func(i int) verifkit.MemOptions) (*verifnet.Pair, error) {
 	if optsFor == nil {
 		optsFor = func(int) verifkit.MemOptions {
-			return verifkit.MemOptions{QUICVisibility: p.x.QUICVis, Window: p.x.Window}
+			return verifkit.MemOptions{QUICVisibility: p.x.QUICVis, Window: p.x.Window, Segment: p.x.Segment}
 		}
 	}
 	n := p.x.Conns
